@@ -586,23 +586,23 @@ func finishProp(prop, tier string, seed int, jobs, mjobs []*job, mutOf map[*job]
 		"rule": "obligation = (rule, function, construct) instance found by resolving the rule's anchors through go/types in " +
 			"each analysed build configuration; distinct = distinct (rule,function,construct) keys; every one is non-trivial " +
 			"(it is a real site in /repo that the rule constrains)",
-		"obligations":           len(obls),
-		"discharged":            nOK,
-		"known_findings":        nKnown,
-		"violations":            nViol,
-		"undecided":             nUndec,
-		"evaluations":           len(obls),
-		"distinct_nontrivial":   len(distinct),
-		"samples":               samples,
-		"configs":               cfgNames,
-		"packages":              pkgs,
-		"functions":             funcs,
-		"ssa_functions":         ssaFuncs,
-		"rules":                 ruleList,
-		"mutants":               map[string]any{"run": len(mr), "killed": mKilled, "stale": mStale, "survived": mSurv, "detail": mr},
-		"checker_cmd":           fmt.Sprintf("/verif/bin/gnetlint -prop %s -tier %s", prop, tier),
-		"exhaustive":            false,
-		"trusted_base":          []string{"go/types, go/ssa, go/cfg, VTA of golang.org/x/tools v0.29.0", "the rule tables in /verif/lint/rules"},
+		"obligations":         len(obls),
+		"discharged":          nOK,
+		"known_findings":      nKnown,
+		"violations":          nViol,
+		"undecided":           nUndec,
+		"evaluations":         len(obls),
+		"distinct_nontrivial": len(distinct),
+		"samples":             samples,
+		"configs":             cfgNames,
+		"packages":            pkgs,
+		"functions":           funcs,
+		"ssa_functions":       ssaFuncs,
+		"rules":               ruleList,
+		"mutants":             map[string]any{"run": len(mr), "killed": mKilled, "stale": mStale, "survived": mSurv, "detail": mr},
+		"checker_cmd":         fmt.Sprintf("/verif/bin/gnetlint -prop %s -tier %s", prop, tier),
+		"exhaustive":          false,
+		"trusted_base":        []string{"go/types, go/ssa, go/cfg, VTA of golang.org/x/tools v0.29.0", "the rule tables in /verif/lint/rules"},
 	}
 	ev := map[string]any{
 		"property_id": prop, "tier": tier, "seed": seed, "level": "other", "coverage": cov,
